@@ -87,6 +87,8 @@ def run(rep, F, ctx):
     ok = len(reads) == 2 and reads['memfs'] == reads['stdfs'] and reads['memfs'].count('mode') == 2 and reads['memfs'].count('cdirs') == 2 and reads['memfs'].count('cfiles') == 2
     rep.add('MODE-SEL', 'modesel:option-reads', 'both _copy implementations branch on cp.mode twice, cp.cdirs twice, cp.cfiles twice and on cp.follow equally often', ok, '',
             '' if ok else 'option reads differ or are incomplete: %s' % reads, [str(reads)])
+    setters.mode_selection(rep, F, cg)
+    setters.copy_parent_mode(rep, F, cg)
     return engine.finish(
         rep, 'other', EXPLANATION,
         assumptions=['mash / trim_prefix behave as decided under C15'],
